@@ -314,7 +314,8 @@ theorem simT_selfcall {k : Nat} (hV : TClaimV (k + 1)) (hA : FClaimA (k + 1)) (h
   -- the closure object that is running
   have hmain1 : mainFn < s₁.fns.length := Nat.lt_trans hact.good.nm hact.good.lt
   have hgs : GoodFn m s rs vid :=
-    hact.good.mono (FnsKeep.of_eq hact.fnsLen hact.fns hmain1) hact.scLen hact.flags hact.rext (hact.mext vid hact.good.lt)
+    hact.good.mono (FnsKeep.of_eq hact.fnsLen hact.fns hmain1 ⟨hact.loopsLen, hact.loops⟩) hact.scLen hact.flags hact.rext
+      (hact.mext vid hact.good.lt)
   obtain ⟨c0, hc1, hrest, hnd, hokp, hbody, hparams, hnargs0, hvar0, huser0, _⟩ := hgs.clo
   have hin := hseg.inFn
   have hlen : (tailCode h c.scopes args code).length = code.length + c.scopes + 5 := by
@@ -404,6 +405,8 @@ theorem simT_selfcall {k : Nat} (hV : TClaimV (k + 1)) (hA : FClaimA (k + 1)) (h
         (hfr02.flags i (Nat.lt_of_lt_of_le hi hact.scLen)).trans (hact.flags i hi)
       have hscl2 : s₁.scopes.length ≤ s2.scopes.length := Nat.le_trans hact.scLen hfr02.scLen
       have hext12 : RExt rs₁ rs2 := hact.rext.trans ext2
+      have hle12 : LoopsExt s₁ s2 := ⟨Nat.le_trans hact.loopsLen hfr02.loopsLen, fun id hid =>
+        (hfr02.loops id (Nat.lt_of_lt_of_le hid hact.loopsLen)).trans (hact.loops id hid)⟩
       have hm12 : m2 vid = m₁ vid := (hm2 vid (by show vid < s.fns.length; exact Nat.lt_of_lt_of_le hact.good.lt hact.fnsLen)).trans
         (hact.mext vid hact.good.lt)
       generalize hs1' : ({ s5 with curfunc := s₁.curfunc, pc := s₁.pc, addr := s₁.addr } : St) = s₁' at hent
@@ -412,9 +415,10 @@ theorem simT_selfcall {k : Nat} (hV : TClaimV (k + 1)) (hA : FClaimA (k + 1)) (h
         subst hs1'; unfold isFnScope scopeOf; rw [hsc5]
       have rel1' : RelF m2 s₁' rs2 env :=
         hact.rel₁.back (s₅ := s₁') rel2 (by subst hs1'; exact hsc5) (by subst hs1'; exact hfns5) (by subst hs1'; exact hheap5)
-          (by subst hs1'; exact htr5) (by subst hs1'; exact hlin5) (by subst hs1'; rfl) hflags2 hfl2 hfo2 hext12.1
+          (by subst hs1'; exact htr5) (by subst hs1'; exact hlin5) (by subst hs1'; rfl) hflags2 hfl2 hfo2 hext12.1 hle12
+          (by subst hs1'; exact hloops5)
       have hk1' : FnsKeep s₁ s₁' := FnsKeep.of_eq (by subst hs1'; rw [hfns5]; exact hfl2)
-        (fun id hid => (hfo1' id).trans (hfo2 id hid)) hmain1
+        (fun id hid => (hfo1' id).trans (hfo2 id hid)) hmain1 (by subst hs1'; unfold LoopsExt; rw [hloops5]; exact hle12)
       have good1' : GoodFn m2 s₁' rs2 vid :=
         hact.good.mono hk1' (by subst hs1'; rw [hsc5]; exact hscl2) (fun i hi => (hflags1' i).trans (hflags2 i hi)) hext12 hm12
       have hvlen : vs.length = (fnOf s₁' vid).nargs := by
@@ -422,7 +426,8 @@ theorem simT_selfcall {k : Nat} (hV : TClaimV (k + 1)) (hA : FClaimA (k + 1)) (h
         rw [hvs2, List.length_map] at h3
         rw [hfo1' vid, hfo2 vid hact.good.lt, hnargs, h3, harity]
       have hvok : ∀ v ∈ vs, VOk m2 s₁' rs2 v := fun v hv =>
-        ValIn.mono (hcl2 v hv) (fun id hgd => hgd.mono (FnsKeep.of_fns_eq (by subst hs1'; exact hfns5))
+        ValIn.mono (hcl2 v hv) (fun id hgd => hgd.mono (FnsKeep.of_fns_eq (by subst hs1'; exact hfns5)
+            (LoopsExt.of_eq (by subst hs1'; exact hloops5)))
           (by subst hs1'; rw [hsc5]; exact Nat.le_refl _) (fun i _ => hflags1' i) (RExt.refl _) rfl)
       have hres := hU m2 s₁' rs2 env vid vs D rel1' good1' (by subst hs1'; exact hd5) hvok hvlen
       rw [hent, hm12, ← hact.mext vid hact.good.lt, ← hvs2] at hres
@@ -879,7 +884,7 @@ theorem fclaimU_succ {n : Nat} (hB : TClaimB n) : FClaimU (n + 1) := by
     rw [List.map_fst_zip (by simp; omega)]; exact hnd
   have relB : RelF m s₄ rsB rs₁.frames.length := by
     refine hrel.enter hg (fun c' hc' => by rw [hc1] at hc'; injection hc' with hc'; rw [hc']) s₄ rsB t _ _ hsc4 hlin4 hfns4 hcur4 (by subst hs4; subst hs3; rfl) (by subst hs4; subst hs3; rfl)
-      hfrB hclB hhpB htrB htclo (fun y => ?_) (fun y v hv => ?_) (fun h hh => ?_)
+      hfrB hclB hhpB htrB htclo (fun y => ?_) (fun y v hv => ?_) (fun h hh => ?_) hloops4
     · rw [lookup_bindsVars, lookup_bindsVars, List.reverse_reverse, lookup_reverse_of_nodup _ hndz', lookup_zip_map]
       cases (c.ps.zip vs).lookup y <;> rfl
     · rw [lookup_bindsVars, List.reverse_reverse] at hv
@@ -907,7 +912,7 @@ theorem fclaimU_succ {n : Nat} (hB : TClaimB n) : FClaimU (n + 1) := by
       fun id _ => by unfold fnOf; rw [hfns4], by rw [hloops4]; exact Nat.le_refl _, fun id _ => by rw [hloops4], hscl14, hfl14,
       MExt.refl _ _, ⟨hext1B, fun i c' hc' => by rw [hclB]; exact hc'⟩⟩
   have hsim := hB self c.body hbody hff isFn cb gs0 ((b, tl), gs1) hcomp hfname c.ps hkn hokp m s₁ rs₁ env vid D m s₄ rsB
-    rs₁.frames.length _ _ hact hnargs relB (hgen.mono (FnsKeep.of_fns_eq hfns4)) hseg4
+    rs₁.frames.length _ _ hact hnargs relB (hgen.mono (FnsKeep.of_fns_eq hfns4 (LoopsExt.of_eq hloops4))) hseg4
   have hreach4 : ReachX (entered s₁ vid) s₄ := r2.trans r4
   cases hres : Ref.evalBegin n c.body rs₁.frames.length rsB with
   | ok v' rs' =>
@@ -950,6 +955,7 @@ theorem fclaimU_succ {n : Nat} (hB : TClaimB n) : FClaimU (n + 1) := by
       ((hreach4.trans r5).trans r6).trans r7, rfl, by show s₅.data = _; rw [l5.data, hd4], hv5, ?_,
       fun id hid => hm5 id (by rw [hfns4]; exact hid), hrext, ?_, ?_⟩
     · exact hrel.back rel5 rfl rfl rfl rfl rfl rfl hflags hfl hfo hrext.1
+        ⟨by rw [← hloops4]; exact fr5.loopsLen, fun id hid => by rw [← hloops4]; exact fr5.loops id (by rw [hloops4]; exact hid)⟩
     · exact ⟨⟨rfl, rfl, rfl, by show s₅.suspended = _; rw [fr5.susp, hsusp4], hfl, hfo,
         by show s₁.loops.length ≤ s₅.loops.length; rw [← hloops4]; exact fr5.loopsLen,
         fun id hid => by show s₅.loops.getD id {} = _; rw [← hloops4]; exact fr5.loops id (by rw [hloops4]; exact hid)⟩,
